@@ -52,6 +52,9 @@ pub const C: u32 = 0x43;
 pub const D_: u32 = 0x44;
 pub const E: u32 = 0x45;
 pub const A2: u32 = 0x61; // second code point mapped to gid 1
+pub const NOTDEF_BEFORE: u32 = 0x30;
+pub const NOTDEF_BETWEEN: u32 = 0x5A;
+pub const NOTDEF_AFTER: u32 = 0x7E;
 pub const R0: u32 = 0x1000;
 pub const R5: u32 = 0x1005;
 pub const BIG: u32 = 80_005;
@@ -165,7 +168,9 @@ pub struct BaseTables {
 
 pub fn base_tables() -> BaseTables {
     use write_fonts::tables::{cmap::Cmap, head::Head, maxp::Maxp};
-    let mappings: Vec<(u32, u32)> = vec![(A, 1), (B, 2), (C, 3), (D_, 4), (E, 5), (A2, 1)];
+    // code points mapped to glyph 0 (= unmapped for every consumer) sit before, between and after the
+    // real mappings: the cmap iterator and the cmap lookup must treat them alike
+    let mappings: Vec<(u32, u32)> = vec![(NOTDEF_BEFORE, 0), (A, 1), (B, 2), (C, 3), (D_, 4), (E, 5), (NOTDEF_BETWEEN, 0), (A2, 1), (NOTDEF_AFTER, 0)];
     let cmap = Cmap::from_mappings(
         mappings
             .iter()
@@ -201,7 +206,7 @@ pub fn base_tables() -> BaseTables {
     ];
     BaseTables {
         tables,
-        cmap: mappings.into_iter().collect(),
+        cmap: mappings.into_iter().filter(|(_, g)| *g != 0).collect(),
         num_glyphs: 6,
     }
 }
@@ -288,6 +293,13 @@ pub fn defs_f1() -> Vec<Def> {
         DCps::Set(vec![E, 0x999]),
         DCps::AllExcept(vec![A]),
         DCps::AllExcept(vec![]),
+        // neighbours of the code points that map to glyph 0
+        DCps::Set(vec![NOTDEF_BEFORE]),
+        DCps::Set(vec![NOTDEF_BEFORE, A]),
+        DCps::Set(vec![NOTDEF_BETWEEN, A2]),
+        DCps::Set(vec![E, NOTDEF_AFTER]),
+        DCps::AllExcept(vec![NOTDEF_BEFORE]),
+        DCps::AllExcept(vec![A, B, C, D_, E]),
     ];
     let feats = vec![
         DFeat::Set(vec![]),
@@ -624,6 +636,10 @@ fn body(run: &Run, replay: Option<&Value>) {
     run.assume("harness encoders for mapping tables are gated byte-for-byte on the font-test-data::ift fixtures; write-fonts FontBuilder/Cmap builder and read-fonts FontRef are trusted to wrap tables into a font");
     run.assume("patch bytes use uncompressed bodies through pass-through decoders (the decoder is an injected dependency of the API)");
     let base = base_tables();
+    if let Err(e) = extra::fixtures_hold_notdef_pairs(&base) {
+        run.machinery_error(&format!("fixture cmap lost its code point -> glyph 0 pairs: {e}"));
+        return;
+    }
     if let Some(case) = replay {
         replay_case(run, &base, case);
         return;
